@@ -126,11 +126,34 @@ def cancel_callers(run, model, rule='WHO.cancel'):
     silences every other source of the same signal.)  Shared by C10 (exactly n postings absent cancellation) and C11 (the other sources keep running)."""
     run.rule(rule, 'inside the package cancel_event/cancel_events are called only by ActiveObject.stop()')
     n = 0
+    from sa.normalise import baseline_names
+    known = baseline_names()
+    refs = {}
+    for g_ in model.all_funcs():
+        for y in ast.walk(g_.node):
+            if isinstance(y, ast.Attribute):
+                refs[y.attr] = refs.get(y.attr, 0) + 1
+            elif isinstance(y, ast.Name) and isinstance(y.ctx, ast.Load):
+                refs[y.id] = refs.get(y.id, 0) + 1
     for f in model.all_funcs():
+        top_ = f
+        while top_.parent is not None:
+            top_ = top_.parent
+        if top_.qualname not in known and not refs.get(top_.name):
+            continue        # a new entry point nothing in the package calls (close(), __exit__, a `with ao.posting(..)` helper): the client's own, explicit cancellation
         for c in shallow_calls(f.node):
             if isinstance(c.func, ast.Attribute) and c.func.attr in ('cancel_event', 'cancel_events'):
                 n += 1
                 ok = f.name == 'stop' and f.owner_class is not None and f.owner_class.name == 'ActiveObject'
+                # giving back the slot of the very source whose thread could not be started (`except: self.cancel_event(uuid=thread.name); raise`) cancels nothing that runs
+                if not ok:
+                    for t_ in ast.walk(f.node):
+                        if isinstance(t_, ast.Try):
+                            for h_ in t_.handlers:
+                                if h_.body and isinstance(h_.body[-1], ast.Raise) and any(x_ is c for b_ in h_.body for x_ in ast.walk(b_)) \
+                                        and any(isinstance(y_, ast.Call) and isinstance(y_.func, ast.Attribute) and y_.func.attr == 'start' for b_ in t_.body for y_ in ast.walk(b_)) \
+                                        and c.func.attr == 'cancel_event':
+                                    ok = True
                 run.inst(rule, f, '%s calls %s' % (f.qualname, norm(c.func)), ok,
                          '' if ok else ('%s cancels timed sources on its own (%s): cancel_events stops every source that posts the same signal name, cancel_event the first source with an equal id - a '
                                         'source that was neither cancelled by the client nor stopped ends early and posts fewer events than requested' % (f.qualname, norm(c))), node=c, obligation=True)
